@@ -29,8 +29,8 @@ if not m:
 else:
     N("C16_WS_INIT_FRAGSIZE", 1 << int(m.group(1)), "websocket.c ws_init: ws->fragsize = 1 << k")
 # control frames: if (len > 125) in ws_msg_init_control, frame->len > 125 in ws_read_frame_cb (ping and pong)
-_c = re.findall(r"if \((?:frame->)?len > (\d+)\) \{", _t)
-if len(_c) < 3 or len(set(_c)) != 1:
+_c = [x for x in re.findall(r"if \((?:frame->)?len > (\d+)\) \{", _t) if x != "0"]
+if len(_c) != 3 or len(set(_c)) != 1:
     missing.append("control frame limit (three tests 'len > 125') in " + _ws)
 else:
     N("C16_WS_CONTROL_MAX", int(_c[0]), "websocket.c: control payload limit")
